@@ -7,7 +7,7 @@ CONSTANTS
   MaxDepth = 2
   Fam = {"ReseedAt", "RerootAtNode", "RerootAtEdge", "RerootAtMidpoint", "ToOutgroupPosition", "Ladderize", "Reorder"}
   Rootings = {0, 1}
-  LenPats = {"unit", "mixed", "zero"}
+  LenPats = {"rootmixed", "unit", "mixed", "zero"}
   ShapeMode = "ordered"
   OptsFirst <- OptsOA
   OptsLater <- OptsOA
